@@ -36,6 +36,7 @@ type clientUDPListener struct {
 	pc        packetConn
 	readFunc  readFunc
 	readIP    net.IP
+	readZone  string
 	readPort  int
 	writeAddr *net.UDPAddr
 
@@ -117,6 +118,11 @@ func (u *clientUDPListener) run() {
 		uaddr := addr.(*net.UDPAddr)
 
 		if !u.readIP.Equal(uaddr.IP) {
+			continue
+		}
+
+		// a link-local address identifies a peer only together with its zone
+		if !u.multicast && u.readZone != uaddr.Zone {
 			continue
 		}
 
